@@ -33,6 +33,9 @@ import pandas as pd
 ULP = 0
 LOGNAMES = ['log.lammps', 'log.lammps', 'log.lammps', 'md.log', 'sim.out.txt', 'logfile', 'relax-2.lammps']
 MAX_LOGS = 4
+# what a caller may hand to Log / Log.read: the five kinds of sim/streams.py plus a pathlib.Path, a bytes object,
+# an open binary file and an open unbuffered (raw) binary file
+SOURCE_KINDS = streams.SOURCE_KINDS + ['pathobj', 'bytes', 'fileobj', 'rawfile']
 
 
 class _Completed:
@@ -104,7 +107,7 @@ class CosimEngine(Engine):
                        'kill_mid_row', 'kill_in_step_token', 'kill_row_boundary', 'kill_in_loop_line', 'kill_in_perf_table',
                        'kill_in_banner', 'kill_lost_everything', 'error_exit', 'read_truncated_log', 'read_append_true_nonempty',
                        'read_append_false_nonempty', 'read_same_file_twice', 'short_read_source', 'buffered_source',
-                       'path_source', 'text_source', 'differential_source_kinds', 'flatten_first_checked',
+                       'path_source', 'text_source', 'real_file_object_source', 'crlf_log', 'differential_source_kinds', 'flatten_first_checked',
                        'flatten_last_checked', 'flatten_all_checked', 'flatten_overlap_checked',
                        'flatten_indices', 'whitespace_only_echo_line', 'perf_new', 'perf_old', 'perf_none',
                        'block_without_rows', 'screen_output_read', 'logfile_read_by_run',
@@ -121,8 +124,8 @@ class CosimEngine(Engine):
             'or exactly b bytes. Step ranges follow LAMMPS restarts: consecutive blocks share their boundary step or are '
             'disjoint; a restart starts on a step the surviving log printed (same lattice) or beyond everything it printed; one '
             'block in ten resets the timestep (then only flatten("all") is checked). read / new: Log.read or Log() on any file '
-            'of the directory or on a log synthesised elsewhere, append True/False, given as text, path, BytesIO, raw short-read '
-            'stream or buffered stream; flatten: style first/last/all with random firstindex/lastindex. One run in five has no '
+            'of the directory or on a log synthesised elsewhere, append True/False, given as text, bytes, path string, pathlib.Path, BytesIO, raw '
+            'short-read stream, buffered stream, open file or open unbuffered file; one log in ten has CRLF line ends; flatten: style first/last/all with random firstindex/lastindex. One run in five has no '
             'kill or error. Not generated: warnings between thermo rows, multi-partition logs, yaml/multi thermo output, '
             'unbalanced quotes, duplicate column names, directories with foreign log-N files. Non-trivial run: a fault fired or '
             '>= 2 state-changing operations. distinct = distinct (files, blocks per file, kill class, reader kind, append '
@@ -249,7 +252,7 @@ class CosimEngine(Engine):
                 last = ([start + k * every for k in range(n)], every, None)
         spec = {'banner': cfg['banner'] if r.random() < 0.9 else r.choice(fl.BANNERS), 'omp': r.random() < 0.4,
                 'tseed': r.getrandbits(31), 'blocks': blocks, 'echo_tail': [r.choice(fl.ECHO_LINES) for _ in range(r.choice([0, 0, 2]))],
-                'tail': r.random() < 0.8, 'perfstyle': r.choice(['new', 'new', 'old']), 'echo_screen': r.random() < 0.2, 'screen_junk': r.random() < 0.1}
+                'crlf': r.random() < 0.1, 'tail': r.random() < 0.8, 'perfstyle': r.choice(['new', 'new', 'old']), 'echo_screen': r.random() < 0.2, 'screen_junk': r.random() < 0.1}
         fault = None
         if allow_fault and not cfg['fault_free']:
             x = r.random()
@@ -272,7 +275,7 @@ class CosimEngine(Engine):
             if fault is not None and fault['kind'] == 'error':
                 fault = None
             src = {'from': 'synth', 'spec': spec, 'fault': fault}
-        src['kind'] = r.choice(streams.SOURCE_KINDS)
+        src['kind'] = r.choice(SOURCE_KINDS)
         src['chunks'] = [r.choice([1, 2, 3, 7, 16, 64, 100, 1000, 4096]) for _ in range(r.randint(1, 4))]
         src['bufsize'] = r.choice([1, 8, 64, 512, 8192])
         return src
@@ -391,6 +394,25 @@ class CosimEngine(Engine):
         kind = src['kind']
         st['nsynth'] += 1
         text = data.decode('utf-8')
+        if kind in ('pathobj', 'fileobj', 'rawfile'):
+            if src['from'] == 'file':
+                fn = src['name']
+            else:
+                fn = 'ext-%d.log' % st['nsynth']
+                with open(fn, 'wb') as f:
+                    f.write(data)
+            if kind == 'pathobj':
+                import pathlib
+                obj, closer = pathlib.Path(fn), (lambda: None)
+                ctx.probe('path_source')
+            else:
+                obj = open(fn, 'rb') if kind == 'fileobj' else open(fn, 'rb', buffering=0)
+                closer = obj.close
+                ctx.probe('real_file_object_source')
+            return obj, closer, kind
+        if kind == 'bytes':
+            ctx.probe('text_source')
+            return data, (lambda: None), kind
         if kind == 'path' and src['from'] == 'file':
             obj, closer, stream = src['name'], (lambda: None), None
         elif kind == 'text' and (('\n' not in text and len(text) < 200) or text == ''):
@@ -440,6 +462,8 @@ class CosimEngine(Engine):
             ctx.probe('two_versions_in_one_log_object')
         if text and not text.endswith('\n'):
             ctx.probe('read_truncated_log')
+        if '\r\n' in text:
+            ctx.probe('crlf_log')
         return p
 
     # -- checks ---------------------------------------------------------
@@ -885,7 +909,7 @@ def _simplify_spec(spec):
             out.append(rep(kind='run'))
         if b.get('rowstyle') != 'old':
             out.append(rep(rowstyle='old'))
-    for k in ('omp', 'echo_tail', 'screen_junk', 'echo_screen'):
+    for k in ('omp', 'echo_tail', 'screen_junk', 'echo_screen', 'crlf'):
         if spec.get(k):
             out.append({kk: vv for kk, vv in spec.items() if kk != k})
     return out
